@@ -533,6 +533,33 @@ func (r *Run) applyContract(st *State, fr *Frame, fn *ssa.Function, blk *Block, 
 			}
 		}
 	}
+	// Go's mutexes are not re-entrant (and a nested RLock deadlocks as soon as a writer queues up in between): a callee whose
+	// contract says it takes its receiver's lock (`action L`) must not be called while that very lock is held
+	if act := blk.First("action"); act != nil && len(act.Words) > 0 && fn.Signature.Recv() != nil && len(args) > 0 {
+		if rt, ok := args[0].(T); ok && rt.So == SRef {
+			recvT := fn.Signature.Recv().Type()
+			if pt, ok := recvT.Underlying().(*types.Pointer); ok {
+				recvT = pt.Elem()
+			}
+			if named, ok := recvT.(*types.Named); ok {
+				if key, ok := r.lockKeyOf(st, named, named.Obj().Name(), act.Words[0], rt); ok {
+					var cs []T
+					class := named.Obj().Name() + "." + act.Words[0]
+					for _, h := range st.Locks {
+						if h.Key.So == key.So && h.Class == class {
+							cs = append(cs, Not(Eq(h.Key, key)))
+						}
+					}
+					goal := True
+					if len(cs) > 0 {
+						goal = And(cs...)
+					}
+					e.emitWith(st, fmt.Sprintf("%s/reentrant@%s#%d", caller, callee, e.callOrdinal(fr.Fn, in, callee)), "", nil, goal,
+						callee+" takes "+act.Words[0]+" of its receiver, which the caller must not hold (lockset {"+locksKey(st.Locks)+"})", e.posOf(in), []string{"C12"}, nil)
+				}
+			}
+		}
+	}
 	postDone := false
 	oldVars := map[string]SV{}
 	// the call may have assigned the captured variables it writes (or, for guard-local variables, another
